@@ -53,7 +53,9 @@ CONFIG = {
     'shards': {'quick': 16, 'thorough': 16},
     'hashseeds': {'quick': 2, 'thorough': 4},
     'min_evals': {'quick': {'c15.fair_states': 10000, 'c15.modelcheck': 8000,
-                            'c15.purity': 8000, 'c15.unconstrained': 1000},
+                            'c15.purity': 8000, 'c15.unconstrained': 1000,
+                            'c15.certificate': 1000,
+                            'c15.fair_states_bruteforce': 1000},
                   'thorough': {'c15.modelcheck': 200000}},
     'must_sig': ['fair_states:agree', 'mc:agree', 'mc:CTL', 'mc:CTLS',
                  'mc:LTL', 'F:empty_list', 'F:all_states', 'F:two_sets',
@@ -195,6 +197,17 @@ def judge(c):
     LOG.hit('c15.modelcheck', c.site)
     LOG.sig['mc:' + c.logic] += 1
     fs_ref = S.fairmask
+    if c.seq % 4 == 0:
+        # oracle self-checks: fair lasso certificates for the top-level
+        # quantifier, and the fair-state set by brute-force lasso enumeration
+        for _ in range(refsem.certify_top(S, t)):
+            LOG.hit('c15.certificate')
+        if nk.n <= 3 and len(c.Fmasks) <= 2:
+            LOG.hit('c15.fair_states_bruteforce')
+            if refsem.fair_states_bruteforce(nk, c.Fmasks) != fs_ref:
+                raise RuntimeError('reference fair_states disagrees with '
+                                   'lasso enumeration on %r %r'
+                                   % (nk.to_json(), c.Fmasks))
     if exp != unc or fs_ref not in (0, nk.full):
         LOG.mark_nontrivial(('mc', nk.key(), tuple(c.Fmasks), t, c.logic))
     expl = sorted(i for i in range(nk.n) if exp >> i & 1)
@@ -238,7 +251,23 @@ def judge(c):
     finding = None
     if c.result_bad is None and model is not None and obs == model and \
             not model_raises:
-        finding = 'D4' if fs_obs != fs_ref else 'D7'
+        if fs_obs != fs_ref:
+            finding = 'D4'
+        else:
+            finding = 'D7'
+            if c.logic == 'CTLS':
+                # D15: CTL* conjoins every quantified subformula with `fair`,
+                # so A g is false where no fair path starts.  If the model
+                # without that conjunction gives the reference answer, the
+                # deviation is D15 alone.
+                try:
+                    alt = refsem.Star(
+                        _with_fair_label(nk, fs_obs), cap_nodes=1 << 13).sat(
+                        defects.m_ctls(t, quantified_and_fair=False))
+                    if alt == exp:
+                        finding = 'D15'
+                except Exception:
+                    pass
     LOG.violation('c15.modelcheck', PROP, case,
                   c.result_bad or sorted(i for i in range(nk.n)
                                          if obs >> i & 1), expl,
